@@ -12,6 +12,7 @@ import Driver.GateParse
 import Q1t.Base.Q8
 import Q1t.Model.Conj
 import Q1t.Spec.Unitaries
+import Q1t.Spec.Clifford
 /-! Driver for C03: one request per line, one answer per line.
 
 Requests (words separated by blanks; a tableau is its `Display` lines joined by `,`, `_` = 0 qubits):
@@ -223,6 +224,44 @@ def handle (line : String) : String :=
         match parseBits bits, Q1t.GateParse.parseGate term with
         | some bits, some (g, []) => showTabRes (t.applyGate ph (conjTerm g) bits)
         | _, _ => "bad-op"
+      | "minto", [q, b] =>
+        -- `measure_into(q, b)` on one shot whose register word is all ones beforehand
+        match q.toNat?, b.toNat? with
+        | some q, some b =>
+          let all := 2 ^ 64 - 1
+          let put (v : Bool) : Nat := if v then all else all ^^^ (1 <<< b)
+          match t.measure q with
+          | .ok (.deterministic v) => s!"any {put v} {showTab t}"
+          | .ok (.random i) =>
+            match t.collapse ph i q false, t.collapse ph i q true with
+            | .ok t0, .ok t1 => s!"any {put false} {showTab t0} | {put true} {showTab t1}"
+            | r0, _ => showTabRes r0
+          | r => showRes showMInfo r
+        | _, _ => "bad-op"
+      | "minto2", [q, b] =>
+        -- measure into bit b, X on the qubit, measure into bit b again (register all ones beforehand)
+        match q.toNat?, b.toNat? with
+        | some q, some b =>
+          let all := 2 ^ 64 - 1
+          let put (v : Bool) : Nat := if v then all else all ^^^ (1 <<< b)
+          let second (t1 : Tab) : Option String :=
+            match t1.applyGate ph (conjFor "X") [q] with
+            | .ok t2 =>
+              match t2.measure q with
+              | .ok (.deterministic v) => some s!"{put v} {showTab t2}"
+              | _ => none
+            | _ => none
+          match t.measure q with
+          | .ok (.deterministic _) => (match second t with | some a => "any " ++ a | none => "model-stuck")
+          | .ok (.random i) =>
+            match t.collapse ph i q false, t.collapse ph i q true with
+            | .ok t0, .ok t1 =>
+              (match second t0, second t1 with
+               | some a0, some a1 => s!"any {a0} | {a1}"
+               | _, _ => "model-stuck")
+            | r0, _ => showTabRes r0
+          | r => showRes showMInfo r
+        | _, _ => "bad-op"
       | "words", [] =>
         match Q1t.TableauBits.ofTab t with
         | some tb =>
@@ -263,6 +302,133 @@ def amplitudeOfWord (n : Nat) (v : Vec) (w : Nat) : Z8 :=
   let idx := (List.range n).foldl (fun acc q => acc * 2 + (w / 2 ^ q) % 2) 0
   vget v idx
 
+/-! ### Pauli-group reference for registers that are out of reach of state vectors (`n > 8`) -/
+
+/-- the multiplication table of the Pauli matrices, `σ_a σ_b = i^k σ_c` (the reference `Spec.Pauli.mulP` finds the
+same pairs by searching the matrices; this literal copy is used for speed on wide registers and is compared with
+it once, in `mulTabOk`) -/
+def mulTab : P → P → Nat × P
+  | .I, p => (0, p)
+  | p, .I => (0, p)
+  | .Z, .Z => (0, .I) | .Z, .X => (1, .Y) | .Z, .Y => (3, .X)
+  | .X, .Z => (3, .Y) | .X, .X => (0, .I) | .X, .Y => (1, .Z)
+  | .Y, .Z => (1, .X) | .Y, .X => (3, .Z) | .Y, .Y => (0, .I)
+
+def mulTabOk : Bool := allP.all fun a => allP.all fun b => mulTab a b == mulP a b
+
+/-- product in the Pauli group, with the table -/
+def pmul (p q : PStr) : PStr :=
+  let cells := List.zipWith mulTab p.ops q.ops
+  ⟨(p.phase + q.phase + cells.foldl (fun acc c => acc + c.1) 0) % 4, cells.map (·.2)⟩
+
+def commuteFast (a b : List P) : Bool :=
+  ((List.zipWith (fun x y => (mulTab x y).1 % 2) a b).foldl (· + ·) 0) % 2 == 0
+
+/-- lowest set bit of a natural number (0 for 0) -/
+def lowBit (x : Nat) : Nat := x ^^^ (x &&& (x - 1))
+
+/-- reduce the signed Pauli string `g` against an echelon basis (pairs (bit vector, string) with distinct
+lowest bits), multiplying in the Pauli group of the reference semantics; `none` if it is not in the span -/
+partial def reduceIn (basis : Array (Nat × PStr)) (bits : Nat) (g : PStr) : Option PStr :=
+  if bits = 0 then some g else
+  match basis.find? (fun b => lowBit b.1 == lowBit bits) with
+  | none => none
+  | some (bb, bs) => reduceIn basis (bits ^^^ bb) (pmul g bs)
+
+/-- echelon basis of the group generated by signed rows; `none` if the rows are dependent -/
+def mkBasis (rows : List PStr) : Option (Array (Nat × PStr)) := Id.run do
+  let mut basis : Array (Nat × PStr) := #[]
+  for g in rows do
+    -- reduce as far as possible
+    let mut bits := rowBits g.ops
+    let mut cur := g
+    let mut fuel := rows.length + 2
+    while fuel > 0 do
+      fuel := fuel - 1
+      if bits == 0 then break
+      match basis.find? (fun b => lowBit b.1 == lowBit bits) with
+      | none => break
+      | some (bb, bs) =>
+        bits := bits ^^^ bb
+        cur := pmul cur bs
+    if bits == 0 then return none
+    basis := basis.push (bits, cur)
+  return some basis
+
+def signedRows (t : Tab) : List PStr := List.zipWith rowStr t.signs t.rows
+
+def allCommute (rows : List PStr) : Bool :=
+  rows.all fun a => rows.all fun b => commuteFast a.ops b.ops
+
+/-- do the two lists of signed rows (each commuting, independent) generate the same group, signs included -/
+def sameGroupB (exp got : List PStr) : Option Bool :=
+  if exp.length != got.length || !allCommute exp then none else
+  match mkBasis exp with
+  | none => none
+  | some basis =>
+    some (got.all fun g =>
+      match reduceIn basis (rowBits g.ops) g with
+      | some r => r.phase % 4 == 0
+      | none => false)
+
+/-- symbolic conjugation of a Pauli string on the gate's own qubits by the documented matrix of the gate
+(search among the `2·4^k` signed strings for the one with `M·P·Mᴴ = ±P'`, over ℚ(ζ₈)) -/
+def conjSym (g : GateTerm Empty) (L : List P) : Option (Bool × List P) :=
+  let M : LMat Q8 := Q1t.Spec.specMatrix (α := Q8) (P := Empty) g
+  let lhs := Q1t.Spec.Clifford.conjBy Empty M (Q1t.Spec.Clifford.pauliMat Empty L)
+  let cands := (Q1t.Spec.Clifford.allStrings L.length).flatMap fun L' => [(false, L'), (true, L')]
+  cands.find? fun fl => decide (lhs = Q1t.Spec.Clifford.signed fl.1 (Q1t.Spec.Clifford.pauliMat Empty fl.2 : LMat Q8))
+
+/-- the signed rows after conjugating every row by gate `g` on `bits`, symbolically -/
+def conjRowsSym (g : GateTerm Empty) (bits : List Nat) (t : Tab) : Option (List PStr) :=
+  let table := (Q1t.Spec.Clifford.allStrings bits.length).map fun L => (L, conjSym g L)
+  (List.zip t.signs t.rows).mapM fun (s, r) => do
+    let L ← bits.mapM fun b => r[b]?
+    let (_, res) ← table.find? (fun e => e.1 == L)
+    let (flip, L') ← res
+    let r' := (bits.zip L').foldl (fun acc bp => acc.set bp.1 bp.2) r
+    pure (rowStr (s != flip) r')
+
+/-- (B) for `n > 8`: the Pauli-group reference -/
+def specCheckBig (t : Tab) (op : String) (rest aw : List String) : String :=
+  let rows := signedRows t
+  if !mulTabOk then "fail spec-multiplication-table-inconsistent" else
+  if !allCommute rows || (mkBasis rows).isNone then "skip" else
+  let resTab : Option Tab := match aw with
+    | ["ok", s] => parseTab s
+    | _ => none
+  let judge (exp : List PStr) (tag : String) : String :=
+    match resTab with
+    | none => s!"fail {tag}-did-not-return"
+    | some t' =>
+      match sameGroupB exp (signedRows t') with
+      | some true => "ok"
+      | some false => s!"fail {tag}-changes-group the signed generators after the operation do not generate the group obtained symbolically (Pauli-group reference, n > 8)"
+      | none => s!"fail {tag}-result-not-a-stabilizer-tableau"
+  match op, rest with
+  | "swap", [a, b] =>
+    match a.toNat?, b.toNat? with
+    | some a, some b => if a < t.n && b < t.n then judge rows "swap" else "skip"
+    | _, _ => "fail bad-request"
+  | "mul", [a, b] =>
+    match a.toNat?, b.toNat? with
+    | some a, some b => if a < t.n && b < t.n && a != b then judge rows "mul" else "skip"
+    | _, _ => "fail bad-request"
+  | "norm", [] => judge rows "norm"
+  | "gate", name :: bits =>
+    match nats? bits, Q1t.GateParse.parseGate [name] with
+    | some bits, some (g, []) =>
+      match toE g with
+      | some ge =>
+        if cliffordWF ge && bits.all (· < t.n) && Q1t.Spec.StabEnum.nodupBy (· == ·) bits && bits.length == Gate.nrBits ge then
+          match conjRowsSym ge bits t with
+          | some exp => judge exp "gate"
+          | none => "fail spec-symbolic-conjugation-failed"
+        else "skip"
+      | none => "skip"
+    | _, _ => "skip"
+  | _, _ => "skip"
+
 /-- `mat`: the embedded documented matrix of a `tgate` request when the caller has it cached -/
 def specCheck (mat : Option (List (List Z8))) (line : String) : String :=
   match line.splitOn "\t" with
@@ -284,7 +450,7 @@ def specCheck (mat : Option (List (List Z8))) (line : String) : String :=
       match parseTab ts with
       | none => "fail bad-request"
       | some t =>
-        if t.n > 8 then "skip" else   -- exact vectors have 2^n entries
+        if t.n > 8 then specCheckBig t op rest aw else   -- exact vectors have 2^n entries
         if t.n ≤ 3 && stateOfSlow t != stateOf t then "fail spec-stateOf-inconsistent" else
         match stateOf t with
         | none => "skip"   -- rows do not describe a stabilizer state (non-commuting / dependent)
@@ -393,6 +559,22 @@ def specCheck (mat : Option (List (List Z8))) (line : String) : String :=
                   | none => "fail tgate-did-not-return"
                 else "skip"
             | _, _ => "fail bad-request"
+          | "minto", [q, b] | "minto2", [q, b] =>
+            if !rrefB t then "skip" else
+            if aw.head? == some "panic" then s!"fail {op}-did-not-return" else
+            match q.toNat?, b.toNat?, aw with
+            | some q, some b, [w, ts'] =>
+              match w.toNat?, parseTab ts' with
+              | some w, some t' =>
+                let all := 2 ^ 64 - 1
+                if w ||| (1 <<< b) != all then s!"fail {op}-touches-other-bits" else
+                let o := w.testBit b
+                -- minto: the stored bit is the outcome; minto2: the stored bit is the second outcome, after X
+                let φ := if op == "minto" then proj n q o ψ else apply1 xMat n q (proj n q (!o) ψ)
+                if Vec.isZero φ then s!"fail {op}-stored-bit-is-impossible-outcome the classical bit does not hold a possible measurement result"
+                else if stabilizesB t' φ then "ok" else s!"fail {op}-stored-bit-contradicts-state the tableau after the measurement does not stabilize the state selected by the stored bit"
+              | _, _ => "fail unparsable-answer"
+            | _, _, _ => s!"fail {op}-did-not-return"
           | "words", [] => "skip"
           | "peekall", [] =>
             if !rrefB t then "skip" else
